@@ -163,6 +163,7 @@ class MetaStream:
             data = raw
         else:
             data = decompress(img.comp, raw, META_MAX)
+            img.payload_fields.append(("meta", pos + 2, size))
             if len(data) < size and len(data) > 0:
                 # a stored block must not be larger than its uncompressed form
                 img.invalid.append("meta: compressed block at %d stores %d bytes for %d bytes of payload" % (pos, size, len(data)))
@@ -238,6 +239,7 @@ class Image:
         self.export = None
         self.comp = 0
         self.comp_opts = None
+        self.payload_fields = []  # (what, file offset, stored length) of every compressed block payload that was unpacked
         self.data_extents = []   # (start, end, what)
         self.loc_lists = []      # (table, start, end) of every lookup table's block location list
         self.struct_starts = set()
@@ -426,6 +428,7 @@ def _decode(img, want_content, max_nodes):
             out = raw
         else:
             out = decompress(img.comp, raw, bs)
+            img.payload_fields.append(("frag", start, stored))
             if stored > len(out):
                 img.invalid.append("frag[%d]: compressed fragment block stores %d bytes for %d bytes of payload" % (idx, stored, len(out)))
         img.data_extents.append((start, start + stored, "fragblk%d" % idx))
@@ -612,6 +615,7 @@ def _decode(img, want_content, max_nodes):
                     blk = raw
                 else:
                     blk = decompress(img.comp, raw, bs)
+                    img.payload_fields.append(("data", pos, stored))
                     if stored > len(blk):
                         img.invalid.append("%s: compressed block %d stores %d bytes for %d bytes of payload" % (tag, k, stored, len(blk)))
                 if len(blk) != want:
